@@ -16,6 +16,7 @@ import Driver.Notebook
 import Driver.CacheLayer
 import Driver.Fuzzy
 import Driver.Cli
+import Driver.GoSort
 
 namespace Driver
 
@@ -44,6 +45,7 @@ def dispatch (dom : String) (ops : Array String) : Array String :=
   | "fuzzy" => Fuzzy.runCase ops
   | "cli" => Cli.runCase ops
   | "boosts" => Search.runCase ops
+  | "gosort" => GoSort.runCase ops
   | _ => ops.map (fun _ => "unknown-domain")
 
 end Driver
